@@ -209,6 +209,8 @@ def prove_equivariance(an, sigma, candidates, expect, label):
     for v in names1:
         if isinstance(an.loop, ast.For) and v == an.loop.target.id:
             continue
+        if v not in an.body_reads and v not in an.post_reads and v not in image:
+            continue          # a temporary: assigned in every iteration before it is read and dead after the loop - nothing depends on the value it carries over
         t = ctx.rename(an.outs[v], sh)
         out_image[v] = find(v, t, lambda n: an.outs[n], names1, 'step', an.where(v, an.loop.body), must=image[v][0] if v in image else None)
         proved.append(('step', v, out_image[v][0]))
